@@ -37,7 +37,10 @@ Definition kcmp (a b : key) : comparison :=
   | KStr x, KStr y => bytes_cmp x y
   | KBytes x, KBytes y => bytes_cmp x y
   | KBlob x, KBlob y => bytes_cmp x y
-  | KUser x _, KUser y _ => Z.compare x y
+  | KUser x lx, KUser y ly =>
+      (* Go compares the K field only; the harness makes the layer a function of K, and comparing
+         the layer too makes [kcmp] a total order whose equality is Leibniz equality *)
+      match Z.compare x y with Eq => Nat.compare lx ly | c => c end
   | _, _ => N.compare (kind_tag a) (kind_tag b)
   end.
 
